@@ -1069,7 +1069,8 @@ impl<'a, 'b, W: Write> Serializer for &'a mut YamlSerializer<'b, W> {
             // With a step other than 2 the compact `- ` forms (always two columns wide) do not
             // keep nested nodes on multiples of the step, so the parent's column is not known
             // here (and N > 9 is rejected by YAML parsers anyway). Fall back to quoting.
-            if (needs_indicator && indent_n != 2) || body_not_representable {
+            // Block scalars do not exist inside flow collections (`[|` reads back as text).
+            if (needs_indicator && indent_n != 2) || body_not_representable || self.in_flow > 0 {
                 // Reset state and fall through to quoted string handling
                 self.pending_str_style = None;
                 self.pending_str_from_auto = false;
